@@ -169,6 +169,54 @@ def coq_gsn_case(X, Y, S, xmax, dist, radius2, opts, real):
             f"{cz(opts['buffer_ntrain'])}, {full}), ({rows}, {cz(real['ntrain'])}))")
 
 
+REQUIRES_SRC = ["PV.Model.Val", "PV.Model.GPSet", "PV.Model.GPSetSrc", "PV.gen.Src_gpset"]
+GSN_OK_SRC = ("fun c => let '(xmax, dmat, r2, nmin, nmax, buf, full) := fst c in "
+              "gsn_src_matches src_gsn xmax dmat r2 nmin nmax buf full (fst (snd c)) (snd (snd c))")
+ADD_OK_SRC = "fun c => let '(g, x, y, sd, sp) := fst c in opt_gpdata_ok (run_add src_add x y sd sp g) (snd c)"
+FEV_OK_SRC = "fun c => lrows_ok (run_fevals src_fevals (fst (fst c)) (snd (fst c))) (snd c)"
+
+
+def run_cases_both(name, case_ty, ok_fun, ok_fun_src, cases, shard=400, timeout=900, with_src=True):
+    """Like core.run_cases, but every shard is evaluated twice on the SAME literals: by the hand-written model (ok_fun) and by the
+    interpreters of Model/GPSetSrc.v on the GENERATED programs (ok_fun_src).  with_src=False (the translator failed, gen/Src_gpset.v
+    holds no definitions): the model only.  Returns (compiled, bad_model, bad_src or None, log)."""
+    from concurrent.futures import ThreadPoolExecutor
+    from vlib import core
+    req = REQUIRES_SRC if with_src else REQUIRES
+    tg = [r[3:].replace(".", "/") + ".vo" for r in req if r.startswith("PV.")]
+    okb, logb = core.coq_make(tg)
+    if not okb:
+        if with_src:      # the generated file does not build: still evaluate the model
+            c, bm, _, log = run_cases_both(name, case_ty, ok_fun, ok_fun_src, cases, shard, timeout, with_src=False)
+            return c, bm, None, "generated program does not build; " + log
+        return False, [], None, "required modules do not build:\n" + logb[-2000:]
+    shards = [cases[i:i + shard] for i in range(0, len(cases), shard)] or [[]]
+
+    def one(k):
+        body = f"\nDefinition the_cases : list ({case_ty}) := " + clist(["\n  " + c for c in shards[k]]) + ".\n"
+        body += f"Eval vm_compute in (bad_indices ({ok_fun}) the_cases).\n"
+        if with_src:
+            body += f"Eval vm_compute in (bad_indices ({ok_fun_src}) the_cases).\n"
+        ok, out = core.coq_eval(f"{name}_{k}", req, body, timeout=timeout)
+        ev = core.split_evals(out) if ok else []
+        lists = [core.parse_nat_list(e) for e in ev]
+        if not ok or len(lists) != (2 if with_src else 1) or any(x is None for x in lists):
+            return False, None, None, out
+        return True, lists[0], (lists[1] if with_src else None), out
+    with ThreadPoolExecutor(max_workers=min(12, len(shards))) as ex:
+        res = list(ex.map(one, range(len(shards))))
+    allok, bm, bs, log = True, [], [], ""
+    for k, (ok, a, b, out) in enumerate(res):
+        if not ok:
+            allok = False
+            log += f"[shard {k}] coqc failed:\n{out[-3000:]}\n"
+        else:
+            bm += [k * shard + i for i in a]
+            if with_src:
+                bs += [k * shard + i for i in b]
+    return allok, bm, (bs if with_src else None), log
+
+
 GSN_TY = "(Z * list (list Q) * Q * Z * Z * Z * list lrow) * (list lrow * Z)"
 GSN_OK = ("fun c => let '(xmax, dmat, r2, nmin, nmax, buf, full) := fst c in "
           "gsn_matches xmax dmat r2 nmin nmax buf full (fst (snd c)) (snd (snd c))")
@@ -317,12 +365,64 @@ def monitor_selection(X, Y, S, xmax, dist, radius2, opts, out_U, out_Y, out_S2, 
     return None
 
 
+def metric_check(Xpre, u, len_scale, dmat):
+    """`nearest ... in the GP's length-scaled metric`: the distances the selection used (as recorded from udist) are, for every
+    logged row i and reference point j, sum_k ((X[i][k] - u[j][k]) / len_scale[k])**2 (non-periodic variables), recomputed here
+    independently at 1e-9 relative.  Returns None or (key, message)."""
+    X = np.asarray(Xpre, dtype=float)
+    if X.size == 0:
+        return None
+    X = X.reshape(len(Xpre), -1)
+    U = np.atleast_2d(np.asarray(u, dtype=float))
+    ls = np.asarray(len_scale, dtype=float).reshape(-1)
+    d = np.asarray(dmat, dtype=float).reshape(X.shape[0], -1)
+    if U.shape[1] != X.shape[1] or d.shape[1] != U.shape[0]:
+        return ("metric", f"the selection measured {d.shape[1]} distance column(s) for {U.shape[0]} centre point(s) of dimension {U.shape[1]} "
+                          f"(log dimension {X.shape[1]})")
+    want = np.sum(((X[:, None, :] - U[None, :, :]) / ls) ** 2, axis=2)
+    err = np.abs(d - want) - 1e-9 * np.abs(want) - 1e-13
+    if np.any(err > 0) or np.any(np.isnan(d) != np.isnan(want)):
+        i, j = np.unravel_index(int(np.nanargmax(np.where(np.isnan(err), np.inf, err))), err.shape)
+        return ("metric", f"logged row {i} = {X[i].tolist()} is at length-scaled squared distance {want[i, j]} from the centre {U[j].tolist()} "
+                          f"(len_scale {ls.tolist()}), but the selection used {d[i, j]}")
+    return None
+
+
 def monitor_case(case, real):
     if "exc" in real:
         return ("exception", f"get_grid_search_neighbors raised {real['exc']}: {real.get('msg')}")
+    npre = max(0, min(len(case["X"]), case["xmax"] + 1))
+    if len(real["dist"]) == npre:
+        mm = metric_check(case["X"][:npre], case["u"], case["len_scale"], real["dist"])
+        if mm:
+            return mm
     dist = [min(r) for r in real["dist"]]
     return monitor_selection(case["X"], case["Y"], case["S"], case["xmax"], dist, radius2_of(case["opts"], case["eff"]),
                              case["opts"], real["U"], real["Y"], real["S2"], real["ntrain"], case["mode"] != "none")
+
+
+def monitor_fevals(case, flags):
+    """Initial training set: `each training pair is a logged evaluation, supplied noise entering as the logged SD squared` — the flagged
+    rows of the log, in log order."""
+    try:
+        r = run_fevals_real(case, flags)
+    except Exception as ex:
+        return ("exception", f"_get_fevals_data raised {type(ex).__name__}: {ex}")
+    rows = [i for i, f in enumerate(flags) if f]
+    if r["U"] != [list(map(float, case["X"][i])) for i in rows] or r["Y"] != [float(case["Y"][i]) for i in rows]:
+        return ("not-logged", f"_get_fevals_data does not return the flagged logged rows {rows}: inputs {r['U']}, values {r['Y']}")
+    if case["mode"] == "none":
+        return None if r["S2"] is None else ("noise-column", "noise column returned although the logger has none")
+    if r["S2"] is None or len(r["S2"]) != len(rows):
+        return ("noise-column", "noise column missing / of another length")
+    for j, i in enumerate(rows):
+        s, o = case["S"][i], r["S2"][j]
+        if s is None:
+            if not math.isnan(o):
+                return ("noise-not-variance", f"row {i} has no logged SD but the initial training set got noise {o}")
+        elif o != _sq(s):
+            return ("noise-not-variance", f"row {i}: logged SD {s}, SD^2 = {_sq(s)}, but the initial training set got noise {o}")
+    return None
 
 
 def monitor_add(c, real):
